@@ -173,8 +173,10 @@ Section Children.
         if ekind_eqb k KRegion && is_style_elem c then
           children_loop l' iend send kids anims pf (merge_absent valid (collect to_model valid (x_attrs c) []) nst)
         else
-        (* the previous child of a sequential container never ends: the remaining children never begin (`break`) *)
-        if negb par && match send with None => true | Some _ => false end then LDone iend kids anims pf nst
+        (* the previous child of a sequential container never ends: the remaining children never begin; each is skipped (`continue`),
+           so that the nested styles of a region that follow are still read; their tails are no content (a sequential container
+           has no anonymous spans) *)
+        if negb par && match send with None => true | Some _ => false end then children_loop l' iend send kids anims pf nst
         else
         (* <set> has no content children, and neither xml:space nor xml:lang for them to inherit (`break`) *)
         if ekind_eqb k KSet then LDone iend kids anims pf nst
